@@ -324,6 +324,7 @@ type LRUOp struct {
 	Put  bool   `json:"put,omitempty"`
 	Key  uint64 `json:"key"`
 	Size int    `json:"size,omitempty"` // cardinality of the stored bitmap
+	Same bool   `json:"same,omitempty"` // Put: the object most recently stored under this key, grown in place by Size values, is stored again
 }
 
 type C07Case struct {
@@ -353,10 +354,50 @@ func genC07(c *Ctx) any {
 	cs.Cap = []uint64{0, 100, 700, 1500, 5000, 40000, 1 << 22, 1, 1 << 62, 1<<63 - 1, 1 << 63, 1<<63 + 1, 1<<64 - 1}[r.Intn(13)]
 	nk := r.Range(2, 12)
 	sizes := []int{0, 1, 4, 30, 100, 400, 2000, 9000}
-	for i, n := 0, r.Range(20, 200); i < n; i++ {
-		k := uint64(1 + r.Intn(nk))
-		if r.Chance(1, 2) {
-			cs.Ops = append(cs.Ops, LRUOp{Put: true, Key: k, Size: sizes[r.Intn(len(sizes))]})
+	nops := r.Range(20, 200)
+	// key alphabets: keys are 64-bit hashes in real use. Small integers, key 0, the extremes, and keys
+	// that coincide in their low 16 / 32 bits or differ only in the top bit.
+	keyOf := func(i int) uint64 { return uint64(1 + i) }
+	switch r.Intn(6) {
+	case 0:
+		base := r.U64()
+		keyOf = func(i int) uint64 { return simrt.Hash3(base, uint64(i), 3) }
+	case 1:
+		low := r.U64() & 0xffffffff
+		keyOf = func(i int) uint64 { return uint64(i)<<32 | low } // equal low words; i = 0 gives a small key
+	case 2:
+		pool := []uint64{0, 1, 1 << 16, 1<<16 + 1, 1 << 32, 1<<32 + 1, 1 << 63, 1<<63 + 1, 1<<64 - 1, 1<<64 - 2, 1<<32 - 1, 1<<31 - 1, 1 << 31}
+		off := r.Intn(len(pool))
+		keyOf = func(i int) uint64 { return pool[(off+i)%len(pool)] }
+	}
+	var bigs []int
+	if r.Chance(1, 12) {
+		// many entries, long history: thresholds in the number of entries, of operations, or of entries that
+		// one Put displaces. Entries are small but not tiny (the bound is about bitmap bytes), and now and then
+		// one Put stores a bitmap of 50..85% of the capacity.
+		nk = r.Range(300, 1500)
+		nops = r.Range(2*nk, 3*nk)
+		sizes = []int{30, 100, 100, 250}
+		cs.Cap = []uint64{1 << 16, 1 << 18, 1 << 20, 1 << 30, 1<<64 - 1}[r.Intn(5)]
+		if cs.Cap <= 1<<20 {
+			bigs = []int{int(cs.Cap) * 6 / 10, int(cs.Cap) * 8 / 10, int(cs.Cap) * 95 / 100}
+		}
+	}
+	regrow := nk < 300 && r.Chance(1, 8) // callers that grow a stored bitmap in place and store it again
+	for i := 0; i < nops; i++ {
+		k := keyOf(r.Intn(nk))
+		if nk >= 300 && i < nk {
+			k = keyOf(i) // fill first, then mix
+		}
+		if r.Chance(1, 2) || (nk >= 300 && i < nk) || (bigs != nil && i == nops-1) {
+			op := LRUOp{Put: true, Key: k, Size: sizes[r.Intn(len(sizes))]}
+			if bigs != nil && i >= nk && (r.Chance(1, 300) || i == nops-1) {
+				op.Size = bigs[r.Intn(len(bigs))] // one Put that has to displace hundreds of entries
+			}
+			if regrow && r.Chance(1, 3) {
+				op.Same = true
+			}
+			cs.Ops = append(cs.Ops, op)
 		} else {
 			cs.Ops = append(cs.Ops, LRUOp{Key: k})
 		}
@@ -377,15 +418,24 @@ func mkBitmap(id, card int) *roaring.Bitmap {
 // checkLRUHistory replays ops on a fresh cache and checks every clause of the statement.
 // Residency after step i is observed without perturbing recency by replaying the prefix on
 // another fresh cache and probing each key once.
-func checkLRUHistory(capacity uint64, ops []LRUOp, deep bool, mk func(i, size int) *roaring.Bitmap) (sig, detail string) {
+func checkLRUHistory(capacity uint64, ops []LRUOp, stride int, mk func(i, size int) *roaring.Bitmap) (sig, detail string) {
 	var probe cacheProbe
 	cache := updog.NewLRUCache(capacity, updog.WithCacheMetrics(&updog.CacheMetrics{CacheHit: &probe.hit, CacheMiss: &probe.miss, GetCall: &probe.get, PutCall: &probe.put}))
 	bms := make([]*roaring.Bitmap, len(ops))
+	grown := make([]bool, len(ops)) // Put i stores the object of an earlier Put again, grown in place just before
+	prevPut := map[uint64]int{}
+	hasSame := false
 	for i, op := range ops {
 		if op.Put {
-			bms[i] = mk(i, op.Size)
+			if j, ok := prevPut[op.Key]; ok && op.Same {
+				bms[i], grown[i], hasSame = bms[j], true, true
+			} else {
+				bms[i] = mk(i, op.Size)
+			}
+			prevPut[op.Key] = i
 		}
 	}
+	accounted := map[uint64]uint64{} // size of the latest bitmap of a key when it was stored
 	keys := map[uint64]bool{}
 	for _, op := range ops {
 		keys[op.Key] = true
@@ -404,12 +454,23 @@ func checkLRUHistory(capacity uint64, ops []LRUOp, deep bool, mk func(i, size in
 	var gets, puts, hits, misses int64
 	evicted := map[uint64]bool{} // keys known not to be resident (model side, from observations)
 	everTight := false           // true once the stored entries no longer fitted comfortably
+	var comfy uint64             // bytes of everything stored so far, with the per-entry allowance
 	for i, op := range ops {
 		if op.Put {
 			puts++
+			if grown[i] {
+				for k := 0; k < op.Size; k++ {
+					bms[i].Add(uint32(i+1)<<14 ^ uint32(k*7) ^ 1<<31)
+				}
+			}
 			if p := guard(func() { cache.Put(op.Key, bms[i]) }); p != "" {
 				return "panic", fmt.Sprintf("Put panicked at step %d: %s", i, p)
 			}
+			if old, ok := accounted[op.Key]; ok {
+				comfy -= old + comfort
+			}
+			accounted[op.Key] = bms[i].GetSizeInBytes()
+			comfy += accounted[op.Key] + comfort
 			latest[op.Key] = bms[i]
 			delete(evicted, op.Key)
 			touch(op.Key)
@@ -431,23 +492,33 @@ func checkLRUHistory(capacity uint64, ops []LRUOp, deep bool, mk func(i, size in
 				evicted[op.Key] = true
 			}
 		}
-		var comfy uint64
-		for _, bm := range latest {
-			comfy += bm.GetSizeInBytes() + comfort
-		}
 		if comfy > capacity {
 			everTight = true
 		}
-		if !deep && i != len(ops)-1 {
+		if i != len(ops)-1 && (stride <= 0 || i%stride != stride-1) {
 			continue
 		}
-		// residency snapshot after step i, on a twin cache fed the same prefix
-		twin := updog.NewLRUCache(capacity)
-		for j := 0; j <= i; j++ {
-			if ops[j].Put {
-				twin.Put(ops[j].Key, bms[j])
-			} else {
-				twin.Get(ops[j].Key)
+		// residency snapshot after step i, on a twin cache fed the same prefix. A history that grows stored
+		// objects in place cannot be replayed on a twin: its residency is read from the cache itself, after the
+		// last step only (the counters are compared first, the probing would disturb them).
+		var twin *updog.LRUCache
+		if hasSame {
+			if i != len(ops)-1 {
+				continue
+			}
+			if probe.get.Load() != gets || probe.put.Load() != puts || probe.hit.Load() != hits || probe.miss.Load() != misses {
+				return "counters", fmt.Sprintf("counters get=%d put=%d hit=%d miss=%d, events get=%d put=%d hit=%d miss=%d",
+					probe.get.Load(), probe.put.Load(), probe.hit.Load(), probe.miss.Load(), gets, puts, hits, misses)
+			}
+			twin = cache
+		} else {
+			twin = updog.NewLRUCache(capacity)
+			for j := 0; j <= i; j++ {
+				if ops[j].Put {
+					twin.Put(ops[j].Key, bms[j])
+				} else {
+					twin.Get(ops[j].Key)
+				}
 			}
 		}
 		resident := map[uint64]bool{}
@@ -461,8 +532,8 @@ func checkLRUHistory(capacity uint64, ops []LRUOp, deep bool, mk func(i, size in
 				bytes += bm.GetSizeInBytes()
 			}
 		}
-		if op.Put && bytes > capacity {
-			return "byte-bound", fmt.Sprintf("after Put at step %d the retrievable bitmaps hold %d bytes, capacity %d", i, bytes, capacity)
+		if bytes > capacity {
+			return "byte-bound", fmt.Sprintf("after step %d the retrievable bitmaps hold %d bytes, capacity %d", i, bytes, capacity)
 		}
 		// LRU order: the resident set is a prefix of the recency order
 		gap := false
@@ -483,6 +554,9 @@ func checkLRUHistory(capacity uint64, ops []LRUOp, deep bool, mk func(i, size in
 				}
 			}
 		}
+	}
+	if hasSame {
+		return "", ""
 	}
 	if probe.get.Load() != gets || probe.put.Load() != puts || probe.hit.Load() != hits || probe.miss.Load() != misses {
 		return "counters", fmt.Sprintf("counters get=%d put=%d hit=%d miss=%d, events get=%d put=%d hit=%d miss=%d",
@@ -525,7 +599,7 @@ func runC07(c *Ctx, body json.RawMessage) *Verdict {
 			rec = func(d int) (string, string) {
 				if d == l {
 					count++
-					return checkLRUHistory(cs.Cap, seq, false, mk)
+					return checkLRUHistory(cs.Cap, seq, 0, mk)
 				}
 				for _, a := range alpha {
 					seq[d] = a
@@ -545,7 +619,7 @@ func runC07(c *Ctx, body json.RawMessage) *Verdict {
 		v.StateKey = simrt.Hash3(1, cs.Cap, uint64(cs.Exhaustive)<<8|uint64(cs.First))
 		return v
 	}
-	if sig, det := checkLRUHistory(cs.Cap, cs.Ops, len(cs.Ops) <= 80, func(i, size int) *roaring.Bitmap { return mkBitmap(i+1, size) }); sig != "" {
+	if sig, det := checkLRUHistory(cs.Cap, cs.Ops, c07Stride(len(cs.Ops)), func(i, size int) *roaring.Bitmap { return mkBitmap(i+1, size) }); sig != "" {
 		return v.Violate(sig, "%s", det)
 	}
 	over := false
@@ -564,6 +638,15 @@ func runC07(c *Ctx, body json.RawMessage) *Verdict {
 	v.NonTrivial = len(cs.Ops) >= 3
 	v.StateKey = simrt.Hash3(2, cs.Cap, uint64(len(cs.Ops)))
 	return v
+}
+
+// c07Stride: residency is audited after every step of a short history and after about 25 steps of a long one
+// (each audit replays the prefix on a twin cache).
+func c07Stride(n int) int {
+	if n <= 80 {
+		return 1
+	}
+	return n/25 + 1
 }
 
 func mustJSON(x any) string {
